@@ -49,3 +49,246 @@ Theorem c15_no_shared_synchronisation :
   Gen.SyncOps.sync_listener_accept = "recv:l.shutdown;recv:l.shutdown;select;select"%string.
 Proof. repeat split; reflexivity. Qed.
 Print Assumptions c15_no_shared_synchronisation.
+
+(* ================================================================================================================================
+   The server endpoints' accept loops and the per-peer session set-up, with every goroutine and resource explicit (Mux/Endpoint.v: per
+   peer its connection, the deadline on it, the goroutine that sets up its session with a program counter over the steps of
+   acceptConnection's goroutine literal / EndpointHandler / IoServer.Startup's goroutine, AcceptConnection, NewServerConnection,
+   handshake and upgrade - the TLS hellos included - and what it is blocked on; per endpoint the accept loop; every goroutine steps
+   under an arbitrary schedule, the environment connects peers, lets them send complete messages, fragments and garbage, close, lets
+   the clock pass a deadline, makes Accept fail, shuts the endpoint down). `shape_ok` is exactly the code as it is, every switch read
+   from the source by role on every run (c15_endpoint_source_facts and the obligations before it). *)
+From SA Require Import Mux.Endpoint Mux.Endpoint_proofs.
+From SA Require Gen.EndpointShape.
+
+(* one obligation per switch the model takes from the source *)
+Theorem c15_endpoint_fact_handshake_on_its_own_goroutine :
+  Gen.EndpointShape.socket_accept_connection_in_go = true /\ Gen.EndpointShape.packet_accept_connection_in_go = true /\
+  Gen.EndpointShape.stdio_accept_connection_in_go = true /\ Gen.EndpointShape.dns_shares_socket_loop = true.
+Proof. repeat split; reflexivity. Qed.
+Theorem c15_endpoint_fact_loops_started_on_their_own_goroutine :
+  Gen.EndpointShape.socket_startup_spawns_loop = true /\ Gen.EndpointShape.packet_startup_spawns_loop = true /\
+  Gen.EndpointShape.dns_startup_spawns_loop = true /\ Gen.EndpointShape.http_startup_serves_in_go = true.
+Proof. repeat split; reflexivity. Qed.
+Theorem c15_endpoint_fact_no_tls_handshake_on_the_loop :
+  Gen.EndpointShape.socket_loop_runs_tls_handshake = false /\ Gen.EndpointShape.packet_loop_runs_tls_handshake = false /\
+  Gen.EndpointShape.starttls_handshake_inside_upgrade = true.
+Proof. repeat split; reflexivity. Qed.
+Theorem c15_endpoint_fact_accept_error_closes_and_continues :
+  Gen.EndpointShape.socket_accept_error_branch = "close:conn;continue"%string /\
+  Gen.EndpointShape.packet_accept_error_branch = "close:conn;continue"%string /\
+  Gen.EndpointShape.socket_accept_error_continues = true /\ Gen.EndpointShape.socket_accept_error_closes_conn = true /\
+  Gen.EndpointShape.packet_accept_error_continues = true /\ Gen.EndpointShape.packet_accept_error_closes_conn = true.
+Proof. repeat split; reflexivity. Qed.
+Theorem c15_endpoint_fact_no_bound_on_pending_handshakes :
+  Gen.EndpointShape.socket_loop_semaphore_capacity = 0%N /\ Gen.EndpointShape.packet_loop_semaphore_capacity = 0%N /\
+  Gen.EndpointShape.http_requests_in_flight_bound = 0%N.
+Proof. repeat split; reflexivity. Qed.
+Theorem c15_endpoint_fact_no_lock_while_reading_from_a_peer : Gen.EndpointShape.upgrade_lock_held_across_tls_handshake = false.
+Proof. reflexivity. Qed.
+Theorem c15_endpoint_fact_deadline_on_the_peers_own_connection :
+  Gen.EndpointShape.server_deadline_armed = true /\ Gen.EndpointShape.server_deadline_cleared = true /\
+  Gen.EndpointShape.server_deadline_on_own_parameter = true /\ Gen.EndpointShape.server_deadline_targets = "param"%string.
+Proof. repeat split; reflexivity. Qed.
+Theorem c15_endpoint_fact_no_deadline_on_a_shared_socket :
+  Gen.EndpointShape.socket_deadline_on_server_field = false /\ Gen.EndpointShape.packet_deadline_on_server_field = false /\
+  Gen.EndpointShape.http_deadline_on_server_field = false /\ Gen.EndpointShape.stdio_deadline_on_server_field = false.
+Proof. repeat split; reflexivity. Qed.
+Theorem c15_endpoint_fact_connection_closed_when_the_handshake_fails :
+  Gen.EndpointShape.accept_connection_closes_on_error = true /\ Gen.EndpointShape.accept_connection_hands_session_to_handler = true /\
+  Gen.EndpointShape.http_upgrade_before_accept_connection = true.
+Proof. repeat split; reflexivity. Qed.
+Theorem c15_endpoint_source_facts : forall kd, shape_ok (code_shape kd) = true.
+Proof. intros [[] [] []]; reflexivity. Qed.
+
+(* THE LOOP IS NEVER BLOCKED ON A PEER. In every reachable state - any number of peers, stalled at any point, any schedule - the accept
+   loop is in Accept (or has ended after Shutdown), never inside a peer's session set-up or TLS handshake and never waiting for a slot;
+   no lock, slot or token is held and no deadline is set on anything shared. *)
+Theorem c15_endpoint_loop_never_blocked : forall sh kd evs, shape_ok sh = true ->
+  let s := run sh kd evs in
+  loop_free (e_loop s) = true /\ e_lock s = None /\ e_slots s = 0 /\ e_tokens s = 0 /\ e_shared s = false /\ e_sockdead s = false.
+Proof. exact loop_never_blocked_run. Qed.
+(* ... and with its next step the loop gives the oldest waiting connection a goroutine of its own (an accept error: closes it) and is
+   back in Accept, whatever state the other peers are in. *)
+Theorem c15_endpoint_accept_serves : forall sh kd evs j, shape_ok sh = true ->
+  let s := run sh kd evs in
+  e_loop s = LAccept -> e_done s = false -> e_errs s = 0 -> first_queued (e_peers s) 0 = Some j ->
+  exists p, nth_error (e_peers s) j = Some p /\ p_pc p = HQueued /\
+            nth_error (e_peers (step sh kd s SLoop)) j = Some (if p_accerr p then set_pc (set_closed p) (HDone false) else set_pc p HStart) /\
+            e_loop (step sh kd s SLoop) = LAccept /\
+            forall k, k <> j -> nth_error (e_peers (step sh kd s SLoop)) k = nth_error (e_peers s) k.
+Proof. exact accept_serves_run. Qed.
+
+(* FRAME. An event of peer i - a step of the goroutine that sets up its session, something it sends (a message, a fragment, garbage),
+   its closing, ITS DEADLINE PASSING - leaves the record of every other peer (connection, deadline, program counter, what it was sent)
+   and the endpoint's own state exactly as they were. *)
+Theorem c15_endpoint_frame : forall sh kd evs e i, shape_ok sh = true -> ev_peer e = Some i ->
+  let s := run sh kd evs in
+  (forall j, j <> i -> nth_error (e_peers (step sh kd s e)) j = nth_error (e_peers s) j) /\ same_globals s (step sh kd s e) /\
+  List.length (e_peers (step sh kd s e)) = List.length (e_peers s).
+Proof. exact frame_run. Qed.
+
+(* INDEPENDENCE. What peer j's session set-up can do next and what becomes of it is a function of j's own record - its own input, its
+   own deadline - and of nothing that belongs to another peer or to the endpoint: two reachable states that agree on j's record agree
+   on the result and on the enabledness of every event of j. (False with a lock across the StartTLS handshake: c15_endpoint_lock_refuted;
+   with a semaphore or a bound on requests in flight: c15_endpoint_slots_refuted, c15_endpoint_throttle_refuted.) *)
+Theorem c15_endpoint_independent : forall sh kd evs evs' e j, shape_ok sh = true -> ev_peer e = Some j ->
+  let s := run sh kd evs in let s' := run sh kd evs' in
+  view s j = view s' j -> view (step sh kd s e) j = view (step sh kd s' e) j /\ enabled sh kd s e = enabled sh kd s' e.
+Proof. exact independent_run. Qed.
+
+(* BOUNDED STALL. On every endpoint kind whose connections honour deadlines (all but stdio, which has one peer), a goroutine that reads
+   from its peer - anywhere in the handshake, the TLS hellos included - does so under the deadline ... *)
+Theorem c15_endpoint_deadline_armed_while_reading : forall sh kd evs j p, shape_ok sh = true -> dl_works kd = true ->
+  nth_error (e_peers (run sh kd evs)) j = Some p -> reading (p_pc p) = true -> p_armed p = true.
+Proof. exact armed_while_reading_run. Qed.
+(* ... and once that deadline has passed the peer is gone - connection closed by the server, goroutine ended - after three steps of its
+   own goroutine, whatever the peer still sends and whatever every other peer, the loop and the environment do meanwhile (`l` is any
+   list of events). By c15_endpoint_frame the expiry itself touches nothing of another peer. *)
+Theorem c15_endpoint_stall_bounded : forall sh kd evs j p l, shape_ok sh = true ->
+  let s := run sh kd evs in
+  nth_error (e_peers s) j = Some p -> reading (p_pc p) = true -> p_armed p = true ->
+  3 <= own_steps j l -> gone (run_from sh kd (step sh kd s (EExpire j)) l) j.
+Proof. exact stall_bounded_run. Qed.
+
+(* A WELL-BEHAVED PEER COMPLETES. A peer whose goroutine has been started and which sends what the handshake asks for has its session
+   established after good_steps (6 to 9) steps of its own goroutine - in every reachable state, i.e. with any number of other peers
+   stalled at any point, and whatever they, the loop and the environment do meanwhile (`l`: any events of others, and steps of j). *)
+Theorem c15_endpoint_good_peer_completes : forall sh kd evs j p st rest l, shape_ok sh = true ->
+  let s := run sh kd evs in
+  nth_error (e_peers s) j = Some p -> p_pc p = HStart -> p_in p = good_input kd st ++ rest -> p_gone p = false ->
+  (st = true -> starttls_offered kd = true) ->
+  Forall (others_or_own_steps j) l -> good_steps kd st <= own_steps j l ->
+  exists q, nth_error (e_peers (run_from sh kd s l)) j = Some q /\ p_pc q = HDone true /\ p_open q = true /\ p_in q = rest.
+Proof. exact good_completes_run. Qed.
+
+Example c15_endpoint_hypotheses_meet :
+  let s := run (code_shape k_sock) k_sock busy_endpoint in
+  p_pc (pr s 0) = HReadAnn /\ p_part (pr s 0) = true /\ p_armed (pr s 0) = true /\ p_pc (pr s 1) = HReadUpg /\
+  p_pc (pr s 2) = HStart /\ p_in (pr s 2) = good_input k_sock true /\ starttls_offered k_sock = true /\ good_steps k_sock true = 7 /\
+  p_pc (pr s 3) = HQueued /\ e_loop s = LAccept /\ first_queued (e_peers s) 0 = Some 3 /\
+  view s 1 = view (run intended k_sock [EConnect false; EConnect false; SLoop; SLoop; SPeer 1; SPeer 1; ESend 1 MAnnounce; SPeer 1]) 1 /\
+  enabled intended k_sock s (EExpire 0) = true /\
+  Forall (others_or_own_steps 2) [SPeer 2; EExpire 0; SPeer 0; SPeer 2; ESend 1 (MBad BParse); SPeer 1; SLoop; SPeer 2] /\
+  gone (run_from intended k_sock (step intended k_sock s (EExpire 0)) [SPeer 0; ESend 0 MAnnounce; SPeer 2; SPeer 0; SPeer 0]) 0.
+Proof.
+  cbn zeta. do 13 (split; [vm_compute; reflexivity|]). split.
+  - repeat (constructor; [first [right; reflexivity | left; cbn; congruence]|]). constructor.
+  - vm_compute. eexists. repeat split.
+Qed.
+
+(* The defects this code has been the target of, each refuted on the variant that has it - and the same history on the code as it is. *)
+Theorem c15_endpoint_inline_refuted :
+  let sh := variant DInline in
+  let s := run sh k_sock stall_then_good in
+  e_loop s = LBusy 0 /\ p_pc (pr s 0) = HReadAnn /\ p_pc (pr s 1) = HQueued /\ p_in (pr s 1) = [MAnnounce; MUpgrade false] /\
+  (forall evs, forallb is_sched evs = true -> run_from sh k_sock s evs = s) /\
+  let t := settled intended k_sock stall_then_good in
+  p_pc (pr t 1) = HDone true /\ p_open (pr t 1) = true /\ e_loop t = LAccept /\ p_pc (pr t 0) = HReadAnn.
+Proof. exact inline_refuted. Qed.
+Theorem c15_endpoint_tls_on_loop_refuted :
+  let sh := variant DTlsOnLoop in
+  let s := run sh k_sock_tls stall_then_good_tls in
+  e_loop s = LBusy 0 /\ p_pc (pr s 0) = HTlsLoop /\ p_pc (pr s 1) = HQueued /\ p_in (pr s 1) = [MHello; MAnnounce; MUpgrade false] /\
+  (forall evs, forallb is_sched evs = true -> run_from sh k_sock_tls s evs = s) /\
+  let t := settled intended k_sock_tls stall_then_good_tls in
+  p_pc (pr t 1) = HDone true /\ p_open (pr t 1) = true /\ p_tls (pr t 1) = true /\ e_loop t = LAccept /\ p_pc (pr t 0) = HTlsAcc.
+Proof. exact tls_on_loop_refuted. Qed.
+Theorem c15_endpoint_lock_refuted :
+  let sh := variant DLockHs in
+  let s := run sh k_sock starttls_pair in
+  let s' := run sh k_sock (starttls_pair ++ [ESend 0 MHello; SPeer 0]) in
+  e_lock s = Some 0 /\ p_pc (pr s 0) = HTlsHello /\ p_sent (pr s 0) = [200; 101] /\ p_pc (pr s 1) = HLock /\
+  quiet sh k_sock s = true /\ view s 1 = view s' 1 /\ enabled sh k_sock s (SPeer 1) = false /\ enabled sh k_sock s' (SPeer 1) = true /\
+  let t := settled intended k_sock starttls_pair in
+  p_pc (pr t 1) = HDone true /\ p_tls (pr t 1) = true /\ p_pc (pr t 0) = HTlsHello.
+Proof. exact lock_hs_refuted. Qed.
+Theorem c15_endpoint_shared_deadline_refuted :
+  let sh := variant DSharedDeadline in
+  let s := run sh k_packet est_then_stall in
+  let s' := step sh k_packet s EExpireShared in
+  session_alive (e_sockdead s) (pr s 0) = true /\ p_pc (pr s 1) = HReadAnn /\ e_shared s = true /\
+  view s' 0 = view s 0 /\ session_alive (e_sockdead s') (pr s' 0) = false /\
+  (let u := settled sh k_packet (est_then_stall ++ [EExpireShared; EConnect false; ESend 2 MAnnounce; ESend 2 (MUpgrade false)]) in
+   p_pc (pr u 2) = HQueued) /\
+  let t := run intended k_packet est_then_stall in
+  e_shared t = false /\ enabled intended k_packet t EExpireShared = false /\ session_alive (e_sockdead t) (pr t 0) = true.
+Proof. exact shared_deadline_refuted. Qed.
+Theorem c15_endpoint_slots_refuted : forallb slots_exhausted (seq 1 24) = true /\
+  let sh := variant (DSlots 16) in let s := run sh k_packet (n_stalled_then_good 16) in
+  e_loop s = LSlot 16 /\ p_pc (pr s 16) = HQueued /\ (forall evs, forallb is_sched evs = true -> run_from sh k_packet s evs = s).
+Proof. exact slots_refuted. Qed.
+Theorem c15_endpoint_throttle_refuted : forallb throttle_exhausted (seq 1 24) = true /\
+  let s := settled (variant (DThrottle 16)) k_http (n_ws_stalled_then_good 16) in
+  e_tokens s = 16 /\ p_sent (pr s 16) = [503; 400] /\ p_pc (pr s 16) = HDone false.
+Proof. exact throttle_refuted. Qed.
+Theorem c15_endpoint_no_close_refuted :
+  let sh := variant DNoClose in
+  let s := settled sh k_sock refused_peer in
+  p_sent (pr s 0) = [400] /\ left_open (pr s 0) = true /\ goroutines s = 1 /\
+  (forall evs, forallb is_sched evs = true -> run_from sh k_sock s evs = s) /\
+  let t := settled intended k_sock refused_peer in p_sent (pr t 0) = [400] /\ p_open (pr t 0) = false /\ p_pc (pr t 0) = HDone false.
+Proof. exact no_close_refuted. Qed.
+Theorem c15_endpoint_no_deadline_refuted :
+  let sh := variant DNoDeadline in
+  let s := settled sh k_sock silent_peer in
+  p_pc (pr s 0) = HReadAnn /\ p_armed (pr s 0) = false /\ enabled sh k_sock s (EExpire 0) = false /\ goroutines s = 2 /\
+  (forall evs, forallb is_sched evs = true -> run_from sh k_sock s evs = s) /\
+  let t := settled intended k_sock silent_peer in
+  p_armed (pr t 0) = true /\ enabled intended k_sock t (EExpire 0) = true /\
+  let u := settled intended k_sock (silent_peer ++ [SPeer 0; SPeer 0; EExpire 0]) in p_open (pr u 0) = false /\ goroutines u = 1.
+Proof. exact no_deadline_refuted. Qed.
+Theorem c15_endpoint_not_cleared_refuted :
+  let sh := variant DNotCleared in
+  let s := settled sh k_sock good_peer in
+  p_pc (pr s 0) = HDone true /\ p_armed (pr s 0) = true /\ session_alive false (pr s 0) = true /\
+  session_alive false (pr (step sh k_sock s (EExpire 0)) 0) = false /\
+  let t := settled intended k_sock good_peer in
+  p_pc (pr t 0) = HDone true /\ p_armed (pr t 0) = false /\ enabled intended k_sock t (EExpire 0) = false.
+Proof. exact not_cleared_refuted. Qed.
+Theorem c15_endpoint_accept_error_no_close_refuted :
+  let s := settled (variant DAccErrNoClose) k_packet [EConnect true] in
+  left_open (pr s 0) = true /\ e_loop s = LAccept /\
+  let t := settled intended k_packet [EConnect true] in p_open (pr t 0) = false /\ e_loop t = LAccept.
+Proof. exact acc_err_no_close_refuted. Qed.
+Theorem c15_endpoint_accept_error_exits_refuted :
+  let sh := variant DAccErrExits in
+  let evs := [EAcceptErr; SLoop; EConnect false; ESend 0 MAnnounce; ESend 0 (MUpgrade false)] in
+  let s := run sh k_sock evs in
+  e_loop s = LExited /\ p_pc (pr s 0) = HQueued /\ (forall l, forallb is_sched l = true -> run_from sh k_sock s l = s) /\
+  p_pc (pr (settled intended k_sock evs) 0) = HDone true.
+Proof. exact acc_err_exits_refuted. Qed.
+
+Print Assumptions c15_source_facts.
+Print Assumptions c15_independent.
+Print Assumptions c15_loop_never_occupied.
+Print Assumptions c15_inline_refuted.
+Print Assumptions c15_served_stable.
+Print Assumptions c15_endpoint_fact_handshake_on_its_own_goroutine.
+Print Assumptions c15_endpoint_fact_loops_started_on_their_own_goroutine.
+Print Assumptions c15_endpoint_fact_no_tls_handshake_on_the_loop.
+Print Assumptions c15_endpoint_fact_accept_error_closes_and_continues.
+Print Assumptions c15_endpoint_fact_no_bound_on_pending_handshakes.
+Print Assumptions c15_endpoint_fact_no_lock_while_reading_from_a_peer.
+Print Assumptions c15_endpoint_fact_deadline_on_the_peers_own_connection.
+Print Assumptions c15_endpoint_fact_no_deadline_on_a_shared_socket.
+Print Assumptions c15_endpoint_fact_connection_closed_when_the_handshake_fails.
+Print Assumptions c15_endpoint_source_facts.
+Print Assumptions c15_endpoint_loop_never_blocked.
+Print Assumptions c15_endpoint_accept_serves.
+Print Assumptions c15_endpoint_frame.
+Print Assumptions c15_endpoint_independent.
+Print Assumptions c15_endpoint_deadline_armed_while_reading.
+Print Assumptions c15_endpoint_stall_bounded.
+Print Assumptions c15_endpoint_good_peer_completes.
+Print Assumptions c15_endpoint_inline_refuted.
+Print Assumptions c15_endpoint_tls_on_loop_refuted.
+Print Assumptions c15_endpoint_lock_refuted.
+Print Assumptions c15_endpoint_shared_deadline_refuted.
+Print Assumptions c15_endpoint_slots_refuted.
+Print Assumptions c15_endpoint_throttle_refuted.
+Print Assumptions c15_endpoint_no_close_refuted.
+Print Assumptions c15_endpoint_no_deadline_refuted.
+Print Assumptions c15_endpoint_not_cleared_refuted.
+Print Assumptions c15_endpoint_accept_error_no_close_refuted.
+Print Assumptions c15_endpoint_accept_error_exits_refuted.
